@@ -65,6 +65,8 @@ d4a3bb1 C16
 9028362 C17
 3e08cf1 C15
 b50c212 C10
+8cf1139 C15
+37dc5fe C03
 LIST
 rm -rf "$VERIF/evidence"; cp -r /tmp/evidence.bak.$$ "$VERIF/evidence"; rm -rf /tmp/evidence.bak.$$
 echo "revert sweep done: $OUT"
